@@ -261,7 +261,7 @@ func (se *SpecEnv) ident(name string) Value {
 	if val, ok := se.lookupVar(name); ok {
 		return val
 	}
-	if fp := v.fieldParams(se.pkg); fp != nil {
+	if fp := se.fieldParams(); fp != nil {
 		switch name {
 		case "q":
 			return F.Int(fp.Q)
@@ -664,9 +664,9 @@ func (se *SpecEnv) callSpec(c *ast.CallExpr) Value {
 		}
 		return F.Exists(bn, F.And(rng, body))
 	case "reg": // reg(v): the unique r in [0,q) with r*R == v (mod q)  (exists since gcd(R,q)=1, checked: q odd)
-		fp := se.fr.v.fieldParams(se.pkg)
+		fp := se.fieldParams()
 		if fp == nil {
-			unsup("reg() outside a field package")
+			unsup("reg() outside a field package (name the field package with 'option field <import name>')")
 		}
 		if fp.Q.Bit(0) == 0 {
 			unsup("reg(): modulus is even")
@@ -798,4 +798,29 @@ func (se *SpecEnv) bytesVal(x Value, bigEnd bool) *Term {
 		sum = append(sum, F.Mul(e, F.Int(pow2(8*sh))))
 	}
 	return F.Add(sum...)
+}
+
+// fieldParams: parameters (q, R, word size) of the prime field the specification speaks about: the package of the
+// function itself when it is a field package, otherwise the imported field package named by "option field <name>".
+func (se *SpecEnv) fieldParams() *FieldParams {
+	v := se.fr.v
+	if fp := v.fieldParams(se.pkg); fp != nil {
+		return fp
+	}
+	c := se.fr.topContract()
+	if c == nil || se.pkg == nil {
+		return nil
+	}
+	name := c.Options["field"]
+	if name == "" {
+		return nil
+	}
+	for _, imp := range se.pkg.Pkg.Imports() {
+		if imp.Name() == name {
+			if sp := v.prog.Package(imp); sp != nil {
+				return v.fieldParams(sp)
+			}
+		}
+	}
+	return nil
 }
